@@ -117,6 +117,21 @@ let handle (toks : string list) : string =
          it := it'; outs := show moved :: !outs) flags;
        String.concat ";" (List.rev !outs)
      | e -> fail_name e)
+  | ["dbcommit"; limit; root; mem; pre; disk] ->
+    (* Database.Commit(root) over a dumped memory layer / preimages / disk; answer: keys left in memory | disk as key:len *)
+    let split s = if s = "-" then [] else String.split_on_char ',' s in
+    let m = List.map (fun e -> match String.split_on_char ':' e with
+      | [h; b; cs] -> (bytes_of_hex h, { mn_blob = bytes_of_hex b;
+                        mn_children = (if cs = "" then [] else List.map bytes_of_hex (String.split_on_char '+' cs)) })
+      | _ -> failwith "bad mem entry") (split mem) in
+    let kvl s = List.map (fun e -> match String.split_on_char ':' e with
+      | [k; v] -> (bytes_of_hex k, bytes_of_hex v) | _ -> failwith "bad kv") (split s) in
+    (match tdb_commit (nat_of_int 2000) (n_of_string limit) m (kvl pre) (kvl disk) (bytes_of_hex root) with
+     | Ok (m', d') ->
+       let mk = List.sort compare (List.map (fun (k, _) -> hx k) m') in
+       let dk = List.sort compare (List.map (fun (k, v) -> hx k ^ ":" ^ string_of_int (List.length v)) d') in
+       "ok mem=" ^ String.concat "," mk ^ "|disk=" ^ String.concat "," dk
+     | e -> fail_name e)
   | ["mptroot"; c] -> hex_of_bytes (k_mpt_root (parse_content c))
   | ["verify"; root; key; nodes] ->
     let ns = if nodes = "-" then [] else List.map bytes_of_hex (String.split_on_char ',' nodes) in
